@@ -30,8 +30,34 @@ import NeumannModel.RaftWal.Model
                                 auto_rotate) → ok
     wal_append <hexpayload>     RaftWal::append (size check, rotation)   → cur=<hex|-> rot=<hex;hex;…|-> | err size
     wal_reopen                  drop + open_with_config on the same path (tail repair)    → cur=… rot=…
+    recover_capped <cap> <hexfile>  NOT the code: tail repair + the replay variant that refuses frames whose
+                                length prefix exceeds <cap> (`recoverBytesCapped`; the harness uses it to
+                                check that its record-size oracles would notice such a reader)  → as recover
+  Files and payloads may be megabytes long (log entries with large blocks): hex strings are decoded by a
+  loop over the line's bytes (`unhexFast`, same language as `Proto.unhex`).
 -/
 open Neumann Neumann.Proto Neumann.RaftWal
+
+/-- value of a hex digit, 255 if it is none -/
+def nibble (b : UInt8) : Nat :=
+  if 48 ≤ b ∧ b ≤ 57 then (b - 48).toNat
+  else if 97 ≤ b ∧ b ≤ 102 then (b - 87).toNat
+  else if 65 ≤ b ∧ b ≤ 70 then (b - 55).toNat
+  else 255
+
+/-- pairs `i-1, …, 0` of `a`, prepended to `acc` -/
+def unhexLoop (a : ByteArray) : Nat → List Nat → Option (List Nat)
+  | 0, acc => some acc
+  | i + 1, acc =>
+    let x := nibble (a.get! (2 * i))
+    let y := nibble (a.get! (2 * i + 1))
+    if x = 255 ∨ y = 255 then none else unhexLoop a i ((x * 16 + y) :: acc)
+
+/-- `Proto.unhex` without building a `List Char` and without deep recursion (files of many MiB) -/
+def unhexFast (s : String) : Option (List Nat) :=
+  if s = "-" then some [] else
+  let a := s.toUTF8
+  if a.size % 2 ≠ 0 then none else unhexLoop a (a.size / 2) []
 
 structure DState where
   table : List (List Nat × WalEntry) := []
@@ -180,6 +206,7 @@ def showWal (w : WalFiles) : String :=
   s!"cur={hexOrDash w.cur} rot={if w.rotated.isEmpty then "-" else ";".intercalate (w.rotated.map hexOrDash)}"
 
 def walStep (st : DState) (line : String) : DState × String :=
+  let unhex := unhexFast
   let bad := (st, "bad-op")
   let crc := Crc32.crc32
   let deser := lookup st.table
@@ -194,6 +221,8 @@ def walStep (st : DState) (line : String) : DState × String :=
       | some b => (st, toString (FramedLog.validPrefixLen b)) | none => bad
   | ["recover", h] => match unhex h with
       | some b => (st, showRecovered (recoverBytes crc deser (FramedLog.openRepair b))) | none => bad
+  | ["recover_capped", c, h] => match c.toNat?, unhex h with
+      | some c, some b => (st, showRecovered (recoverBytesCapped c crc deser (FramedLog.openRepair b))) | _, _ => bad
   | ["replay_raw", h] => match unhex h with
       | some b => (st, showRecovered (recoverBytes crc deser (FramedLog.openOld b))) | none => bad
   | "entries" :: rs =>
